@@ -173,7 +173,7 @@ impl Check for C17 {
     }
     fn count(&self, tier: Tier) -> u64 {
         match tier {
-            Tier::Quick => 60_000,
+            Tier::Quick => 40_000,
             Tier::Thorough => 2_000_000,
         }
     }
